@@ -61,6 +61,8 @@ pub fn legal(ctx: ReqCtx, p: &Prop) -> Legal {
     };
     match allowed {
         Legal::Yes if !value_ok => Legal::No,
+        // Topic Alias 0 is never permitted [MQTT-3.3.2-8], whatever the broker's maximum
+        Legal::Open if !value_ok && id == 0x23 => Legal::No,
         // an illegal value in a property that is not allowed anyway stays illegal
         other => other,
     }
@@ -71,9 +73,24 @@ pub fn samples(id: u8) -> Vec<Prop> {
     let mk = |val| Prop { id, val };
     match prop_kind(id).unwrap() {
         PKind::Byte => vec![mk(PVal::Byte(0)), mk(PVal::Byte(1)), mk(PVal::Byte(2)), mk(PVal::Byte(255))],
-        PKind::U16 => vec![mk(PVal::U16(1)), mk(PVal::U16(65535))],
+        PKind::U16 => vec![mk(PVal::U16(1)), mk(PVal::U16(65535)), mk(PVal::U16(0))],
         PKind::U32 => vec![mk(PVal::U32(0)), mk(PVal::U32(1)), mk(PVal::U32(u32::MAX))],
-        PKind::Var => vec![mk(PVal::Var(1)), mk(PVal::Var(268_435_455)), mk(PVal::Var(0)), mk(PVal::Var(268_435_456))],
+        PKind::Var => vec![
+            mk(PVal::Var(1)),
+            mk(PVal::Var(268_435_455)),
+            mk(PVal::Var(0)),
+            mk(PVal::Var(268_435_456)),
+            mk(PVal::Var(127)),
+            mk(PVal::Var(128)),
+            mk(PVal::Var(16_383)),
+            mk(PVal::Var(16_384)),
+            mk(PVal::Var(2_097_151)),
+            mk(PVal::Var(2_097_152)),
+            mk(PVal::Var(268_435_457)),
+            mk(PVal::Var(0x1234_5678)),
+            mk(PVal::Var(0x8000_0000)),
+            mk(PVal::Var(u32::MAX)),
+        ],
         PKind::Str => vec![mk(PVal::Str("s".into())), mk(PVal::Str(String::new()))],
         PKind::Bin => vec![mk(PVal::Bin(vec![1, 2])), mk(PVal::Bin(vec![]))],
         PKind::Pair => vec![mk(PVal::Pair("k".into(), "v".into())), mk(PVal::Pair(String::new(), String::new()))],
@@ -112,6 +129,21 @@ fn judge(w: &mut World, ctx: ReqCtx, p: &Prop, res: &Res, live: bool) {
                     format!("{} with illegal property {:?} returned {} instead of InvalidRequest", ctx_name(ctx), p, res.name()),
                 );
             }
+            // "rejected with the documented error": running out of some resource is not the
+            // answer to a request that is invalid whatever the resources. (Failures of *older*
+            // outbound work - transport errors, a too large older packet - and cancellations
+            // may come first and are not judged.)
+            let resource = match ctx {
+                ReqCtx::Publish => matches!(res, Res::NotReady | Res::BufferTooSmall),
+                _ => matches!(res, Res::NotReady | Res::BufferTooSmall | Res::InflightExhausted),
+            };
+            if resource {
+                w.violate_force(
+                    "C19",
+                    format!("illegal-refused-with-resource-error/{}/{}", ctx_name(ctx), res.name()),
+                    format!("{} with illegal property {:?} returned {} instead of InvalidRequest", ctx_name(ctx), p, res.name()),
+                );
+            }
         }
         Legal::Yes => {
             if *res == Res::InvalidRequest {
@@ -126,9 +158,100 @@ fn judge(w: &mut World, ctx: ReqCtx, p: &Prop, res: &Res, live: bool) {
     }
 }
 
-/// One invalid-or-boundary request at a random point of a run. Returns the operation result so
-/// that the caller can treat fatal results as usual.
+/// A small legal SUBSCRIBE whose identifier is learnt from its first transmission: the two ends of
+/// the bracket around a refused request.
+fn bracket_request(conn: &mut Conn<'_, '_>) -> (Res, Option<u16>) {
+    let mut spec = with(gen_subscribe);
+    spec.filters.truncate(1);
+    spec.props.clear();
+    let size = 8 + spec.filters.iter().map(|f| f.filter.len() + 3).sum::<usize>();
+    if !with(|w| guard_room(w, size)) {
+        return (Res::BufferTooSmall, None);
+    }
+    let r = do_subscribe(conn, &spec);
+    let id = with(|w| w.reqs.last().filter(|q| q.tag == spec.tag && q.accept == crate::world::Accept::Accepted).and_then(|q| q.id));
+    (r.clone(), if r == Res::OkOp { id } else { None })
+}
+
+/// "Leaves no trace": a request refused as invalid must not have consumed a packet identifier.
+/// `a` and `b` are the identifiers of two accepted requests issued directly before and after it:
+/// every identifier skipped between them must belong to an operation that is still unresolved.
+fn check_bracket(w: &mut World, a: u16, b: u16, what: &str) {
+    if w.cut || w.ids_ambiguous {
+        return;
+    }
+    w.probe("refused_request_identifier_bracket");
+    let ep = w.epoch;
+    let in_use = |w: &World, x: u16| w.reqs.iter().any(|r| r.epoch == ep && !r.invalidated && r.id == Some(x) && r.accept != crate::world::Accept::NotAccepted && !matches!(r.phase, crate::world::Phase::Done(_)));
+    let mut x = a;
+    for _ in 0..70_000u32 {
+        x = if x == 65535 { 1 } else { x + 1 };
+        if x == b {
+            return;
+        }
+        if !in_use(w, x) {
+            w.violate(
+                "C19",
+                format!("refused-request-consumed-an-identifier/{what}"),
+                format!("the accepted requests directly before and after a request refused as invalid carry identifiers {a} and {b}, but identifier {x} in between belongs to no operation in flight: the refused request left a trace in the identifier counter"),
+            );
+            return;
+        }
+    }
+}
+
+/// One invalid-or-boundary request at a random point of a run (a quarter of them bracketed by two
+/// accepted requests, see `check_bracket`). Returns the operation result so that the caller can
+/// treat fatal results as usual.
 pub fn invalid_probe(conn: &mut Conn<'_, '_>) -> Res {
+    let bracket = conn.is_connected() && with(|w| !w.cut && !w.ids_ambiguous && w.tape.chance(1, 4));
+    let mut a = None;
+    if bracket {
+        let (r, id) = bracket_request(conn);
+        if r.is_fatal() || !conn.is_connected() {
+            return r;
+        }
+        a = id;
+    }
+    let res = invalid_probe_inner(conn);
+    if let (Some(a), true) = (a, res == Res::InvalidRequest && conn.is_connected()) {
+        let (r, id) = bracket_request(conn);
+        if let Some(b) = id {
+            with(|w| check_bracket(w, a, b, "random-probe"));
+        }
+        if r.is_fatal() {
+            return r;
+        }
+    }
+    res
+}
+
+/// One table entry (C19), bracketed like `invalid_probe` in a quarter of the cases.
+pub fn forced_probe(conn: &mut Conn<'_, '_>, ctx: ReqCtx, prop: &Prop) -> Res {
+    let bracket = conn.is_connected() && with(|w| !w.cut && !w.ids_ambiguous && w.tape.chance(1, 4));
+    let mut a = None;
+    if bracket {
+        let (r, id) = bracket_request(conn);
+        if r.is_fatal() || !conn.is_connected() {
+            return r;
+        }
+        a = id;
+    }
+    let res = forced_probe_inner(conn, ctx, prop);
+    if let (Some(a), true) = (a, res == Res::InvalidRequest && conn.is_connected()) {
+        let (r, id) = bracket_request(conn);
+        if let Some(b) = id {
+            with(|w| check_bracket(w, a, b, ctx_name(ctx)));
+        }
+        if r.is_fatal() {
+            return r;
+        }
+    }
+    res
+}
+
+/// (the probe itself)
+fn invalid_probe_inner(conn: &mut Conn<'_, '_>) -> Res {
     let (which, prop) = with(|w| {
         w.probe("invalid_request_probe");
         let which = w.tape.choose(6);
@@ -306,7 +429,7 @@ pub fn will_table(w: &mut World) {
 }
 
 /// One table entry (C19): issue a request of kind `ctx` carrying exactly `prop`.
-pub fn forced_probe(conn: &mut Conn<'_, '_>, ctx: ReqCtx, prop: &Prop) -> Res {
+fn forced_probe_inner(conn: &mut Conn<'_, '_>, ctx: ReqCtx, prop: &Prop) -> Res {
     // (a run that was cut before this probe is not judged; one that is cut *by* this probe's own
     // packet - the reference decoder rejecting what was sent - still is)
     let live = conn.is_connected() && !with(|w| w.cut);
